@@ -1,6 +1,7 @@
 """C16 — export then import reproduces the project; nothing dropped, merged or misplaced."""
 import itertools
 import json
+import errno
 import os
 import re
 import shutil
@@ -641,8 +642,18 @@ def run_roundtrip(case, ctx):
                 schema_arg = make_schema_callable(skind, target, tkind, jobs[0]["sp"] if jobs else {})
                 if skind == "callable_nonunique" and len(jobs) >= 2:
                     cl.add("import_nonunique_callable")
+            failing_ct = tkind == "dir" and case.get("copytree") == "exdev"
             try:
-                dst.import_from(origin=target, schema=schema_arg)
+                if failing_ct:
+                    # a user-supplied copy function (move-on-import across file systems) that fails with an errno
+                    # which does not mean "destination exists"
+                    def _exdev(s, d):
+                        raise OSError(errno.EXDEV, os.strerror(errno.EXDEV), s, None, d)
+
+                    cl.add("import_copytree_fails_exdev")
+                    dst.import_from(origin=target, schema=schema_arg, copytree=_exdev)
+                else:
+                    dst.import_from(origin=target, schema=schema_arg)
             except Exception as e:
                 imp_exc = e
             S2 = fsutil.snapshot(R)
@@ -670,7 +681,9 @@ def run_roundtrip(case, ctx):
 
             if dest in ("preexisting_collision", "self") and jobs:
                 cl.add("import_collision" if dest == "preexisting_collision" else "import_into_self")
-                if not isinstance(imp_exc, DestinationExistsError):
+                if failing_ct and isinstance(imp_exc, OSError):
+                    pass  # the copy function's own error may come first; the existing job must be untouched all the same
+                elif not isinstance(imp_exc, DestinationExistsError):
                     got = "no exception" if imp_exc is None else _exc(imp_exc)
                     mm("import_collision_not_raised", f"import onto an existing job ({dest}, {tkind}) gave {got}, expected DestinationExistsError")
                 elif tkind != "dir" and dest == "preexisting_collision":
@@ -682,7 +695,7 @@ def run_roundtrip(case, ctx):
             if skind == "callable_nonunique" and len(jobs) >= 2 and imp_exc is None:
                 mm("import_nonunique_not_rejected", f"non-injective schema callable accepted for {len(jobs)} jobs ({tkind})")
             must_succeed = (
-                dest == "empty" and jobs and ret_paths is not None
+                dest == "empty" and jobs and ret_paths is not None and not failing_ct
                 and not any(map_problems(list(ret_paths.values()))) and all(tidy(p) for p in ret_paths.values())
                 and (own_valid or pspec["kind"] in ("none", "format"))
                 and (skind in ("none", "callable_spfile") or (skind == "callable_nonunique" and len(jobs) < 2)
@@ -1066,6 +1079,7 @@ def roundtrip_cases(draw):
     return {
         "kind": "roundtrip", "jobs": jobs, "target": draw(_targets), "path": path,
         "schema": {"kind": schema}, "dest": "empty" if friendly else draw(_dests), "collide_idx": draw(st.integers(0, 5)),
+        "copytree": draw(st.sampled_from([None, None, "exdev"])),
     }
 
 
@@ -1119,6 +1133,10 @@ def representatives():
         out.append(_rt(a("x", "x_1", "True"), t, schema="string"))
         out.append(_rt([{"n": {"x": 1}, "b": "x"}, {"n": {"x": 10}, "b": "10"}], t, schema="string"))
         out.append(_rt(a(1, 2), t, dest="preexisting_collision", files=F))
+        if t == "dir":
+            for _ci in (0, 1):
+                out.append(dict(_rt(a(1, 2), t, dest="preexisting_collision", files=F), collide_idx=_ci, copytree="exdev"))
+            out.append(dict(_rt(a(1, 2), t, files=F), copytree="exdev"))
         for _ci in (1, 2):
             out.append(dict(_rt(a(1, 2, 3), t, dest="preexisting_collision", files=F), collide_idx=_ci))
         out.append(_rt(a(1, 2), t, dest="self"))
